@@ -544,6 +544,7 @@ class World:
         srv = self.env.rserver
         proc = dict(srv.kv.get("processing") or {})
         expect = {}
+        takers: dict = {}  # id -> client whose consumer marked it as processing
         for member in proc:
             short = member.decode()
             id_ = short.split(":")[1]
@@ -556,6 +557,7 @@ class World:
             t_take -= vclock._EPOCH_TS
             deadline = t_take + m.params.execution_timeout.total_seconds()
             expect[id_] = (t_take, deadline)
+            takers[id_] = srv.zadd_clients.get(("processing", member))
         # ids sitting in the local prefetch queue of a live consumer (harness observation of client-side state)
         prefetched_live = set()
         for c in self.cons:
@@ -589,8 +591,10 @@ class World:
                 # timed out: whoever held it has lost it.  If that was a *live* client (or a live consumer's prefetch
                 # queue) the old copy can still be handed over / acted upon: remember it for the double-delivery facts
                 holder_live = m.holder is not None and not self.cons[m.holder].dead
+                # (in a live consumer's local queue, or still in the hand of its background task: taken by a client that is alive)
+                taker_alive = takers.get(id_) is not None and takers[id_] not in self.dead_clients
                 prefetch_live = m.holder is None and (
-                    not any(c.dead and c.queue == m.queue for c in self.cons) or id_ in prefetched_live)
+                    not any(c.dead and c.queue == m.queue for c in self.cons) or id_ in prefetched_live or taker_alive)
                 if holder_live or prefetch_live:
                     m.reclaimed_live = True
                 if m.holder is not None:
